@@ -17,6 +17,7 @@ import GrcVerif.PassBits
 import GrcVerif.MainSM
 import GrcVerif.Version
 import GrcVerif.FeatModel
+import GrcVerif.Cmap
 namespace Grc.Driver
 
 structure State where
@@ -454,6 +455,79 @@ def cmdC16 (st : State) : Except String (List String) := do
     return [s!"ok features={decls.length} featEntries={feat.feats.size} labels={nLabels} languages={sill.size} firstId={first} newNameRecords={newRecs.size}", "done"]
   return out ++ ["done"]
 
+/-- C17: resolve the IR's glyph references through the INPUT font with the Lean cmap/post readers and the pseudo-glyph
+    allocation model, install the resolved classes in the IR (so c02/c04 check membership and substitution against
+    them), and compare the Silf pseudo map / lbGID / maxGlyphID / actualForPseudo attribute of the output font. -/
+def cmdC17 (st : State) : Except String (State × List String) := do
+  let some refs := st.ir.classRefs | throw "IR has no classRefs section"
+  let (ib, fi) ← match st.inFont, st.inSfnt with
+    | some a, some b => pure (a, b)
+    | _, _ => throw "no input font loaded (infont)"
+  let tbl (tag : String) : Except String ByteArray :=
+    match fi.find? (strTag tag) with
+    | some e => match tableBytes ib e with | some t => pure t | none => throw s!"input table {tag} out of bounds"
+    | none => throw s!"input font lacks table {tag}"
+  let cm ← P.run Cm.parseCmap (← tbl "cmap")
+  let maxp ← tbl "maxp"
+  let numGlyphs := beU16 maxp 4
+  let mapped := Cm.mappedCodepoints cm
+  let maxGid := mapped.foldl (fun m c => max m (Cm.lookup cm c)) 0
+  let n := max numGlyphs (maxGid + 1)
+  let coll := if st.ir.autoPseudo then Cm.collisions cm else []
+  let A := Cm.alloc n coll
+  let psNames ← P.run (Cm.parsePostNames numGlyphs) (← tbl "post")
+  let resolveU := fun (c : Nat) =>
+    match A.pseudos.find? (·.1 == c) with
+    | some (_, g) => g
+    | none => Cm.lookup cm c
+  let mut classes : Array (List Nat) := #[]
+  let mut missing : List String := []
+  for rl in refs do
+    let mut gl : List Nat := []
+    for r in rl do
+      match r with
+      | .glyphid l => gl := gl ++ l
+      | .grange a b => gl := gl ++ (if a ≤ b then List.range' a (b - a + 1) else [])
+      | .unicode l =>
+        for c in l do
+          let g := resolveU c
+          if g == 0 then missing := missing ++ [s!"U+{c}"] else gl := gl ++ [g]
+      | .urange a b =>
+        for c in (if a ≤ b then List.range' a (b - a + 1) else []) do
+          let g := resolveU c
+          if g == 0 then missing := missing ++ [s!"U+{c}"] else gl := gl ++ [g]
+      | .ps nm =>
+        match psNames.toList.idxOf nm with
+        | i => if i < psNames.size ∧ i != 0 then gl := gl ++ [i] else missing := missing ++ [s!"postscript({nm})"]
+      | .cls c => gl := gl ++ classes.getD c []
+    classes := classes.push gl
+  let anyId := classes.size
+  classes := classes.push (List.range A.numIds)
+  let ir' := { st.ir with classes := classes, anyClass := anyId, numGlyphs := A.numIds, numReal := n, lb := A.lb, phantom := A.phantom }
+  let st' := { st with ir := ir' }
+  -- Silf side
+  let silf ← getSilf st
+  let (_, glat) ← getGlat st
+  let mut out : List String := []
+  if silf.lbGID != A.lb then out := out ++ [s!"FAIL lbGID {silf.lbGID}, model {A.lb} (first id above the {n} real glyphs)"]
+  if silf.maxGlyphID != A.phantom then out := out ++ [s!"FAIL maxGlyphID {silf.maxGlyphID}, model {A.phantom} (phantom = last allocated id)"]
+  let wantMap := (A.pseudos.mergeSort (fun a b => a.1 ≤ b.1))
+  if silf.pseudoMap.toList != wantMap then out := out ++ [s!"FAIL pseudo map {silf.pseudoMap.toList}, model {wantMap}"]
+  for (x, y) in silf.pseudoMap.toList.zip (silf.pseudoMap.toList.drop 1) do
+    if !(x.1 < y.1) then out := out ++ [s!"FAIL pseudo map not strictly sorted at U+{x.1}, U+{y.1}"]
+  for (c, g) in A.pseudos do
+    let got := (glat.glyphs.getD g default).get silf.attrPseudo
+    if got != (Cm.lookup cm c : Int) then out := out ++ [s!"FAIL pseudo glyph {g} (U+{c}) records actual glyph {got}, cmap gives {Cm.lookup cm c}"]
+  for g in [0:silf.maxGlyphID + 1] do
+    if !(A.pseudos.any (·.2 == g)) then
+      let got := (glat.glyphs.getD g default).get silf.attrPseudo
+      if got != 0 ∧ silf.attrPseudo != silf.attrBreakWeight then
+        -- attribute 0 is shared with nothing else; a non-pseudo glyph must not carry an actual-glyph value
+        out := out ++ [s!"FAIL non-pseudo glyph {g} carries actualForPseudo = {got}"]
+  if out.isEmpty then
+    return (st', [s!"ok realGlyphs={n} pseudos={A.pseudos.length} lb={A.lb} phantom={A.phantom} missing={missing.length} classes={classes.size}", "done"])
+  return (st', out ++ ["done"])
+
 def step (st : State) (toks : List String) : IO (State × List String) := do
   match toks with
   | [] => return (st, [])
@@ -544,6 +618,10 @@ def step (st : State) (toks : List String) : IO (State × List String) := do
   | ["c16"] =>
     match cmdC16 st with
     | .ok ls => return (st, ls)
+    | .error e => return (st, [s!"error {e}", "done"])
+  | ["c17"] =>
+    match cmdC17 st with
+    | .ok (st', ls) => return (st', ls)
     | .error e => return (st, [s!"error {e}", "done"])
   | ["c06"] =>
     match cmdC06 st with
